@@ -20,6 +20,8 @@ Record cfg := {
   c_fix_ignored : bool;    (* true: repaired IN_IGNORED clean-up (`.get(path) == wd`); false: pinned *)
   c_fix_movein : bool;     (* true: a directory MOVED_TO with unknown source is watched (repair F9); false: pinned *)
   c_fix_simulate : bool;   (* true: _recursive_simulate skips files whose directory has no watch; false: pinned *)
+  c_fix_moveout : bool;    (* true: a directory whose IN_MOVED_FROM is not followed by its IN_MOVED_TO is forgotten (repair
+                              F10) and records for unknown descriptors are skipped; false: pinned (KeyError) *)
   c_faults : list nat      (* indices of inotify_add_watch calls that fail (transient ENOENT/ENOSPC) *)
 }.
 
@@ -27,10 +29,11 @@ Record rstate := {
   wfp : list (bytes * N);      (* _wd_for_path *)
   pfw : list (N * bytes);      (* _path_for_wd *)
   mvf : list (N * bytes);      (* _moved_from_events: cookie -> src_path *)
-  calls : nat                  (* number of inotify_add_watch calls so far (fault oracle index) *)
+  calls : nat;                 (* number of inotify_add_watch calls so far (fault oracle index) *)
+  pend : option (N * bytes)    (* _moved_out_candidate: (cookie, src_path) of a directory IN_MOVED_FROM just processed *)
 }.
 
-Definition rinit0 : rstate := {| wfp := []; pfw := []; mvf := []; calls := 0 |}.
+Definition rinit0 : rstate := {| wfp := []; pfw := []; mvf := []; calls := 0; pend := None |}.
 
 Fixpoint mem_nat (x : nat) (l : list nat) : bool :=
   match l with [] => false | y :: l' => Nat.eqb x y || mem_nat x l' end.
@@ -41,17 +44,18 @@ Section Reader.
   (* self._add_watch(path, mask): None = OSError raised *)
   Definition add_watch (r : rstate) (k : kst) (t : fs) (p : bytes) : option (rstate * kst * N) :=
     let n := calls r in
-    let r1 := {| wfp := wfp r; pfw := pfw r; mvf := mvf r; calls := S n |} in
+    let r1 := {| wfp := wfp r; pfw := pfw r; mvf := mvf r; calls := S n; pend := pend r |} in
     if mem_nat n (c_faults C) then None
     else match kadd_watch k t p (c_mask C) with
          | None => None
          | Some (k', wd) =>
            Some ({| wfp := aset beqb p wd (wfp r1); pfw := aset N.eqb wd p (pfw r1); mvf := mvf r1;
-                    calls := calls r1 |}, k', wd)
+                    calls := calls r1; pend := pend r1 |}, k', wd)
          end.
 
   (* bump the call counter after a failed call (the state is otherwise unchanged) *)
-  Definition bump (r : rstate) : rstate := {| wfp := wfp r; pfw := pfw r; mvf := mvf r; calls := S (calls r) |}.
+  Definition bump (r : rstate) : rstate :=
+    {| wfp := wfp r; pfw := pfw r; mvf := mvf r; calls := S (calls r); pend := pend r |}.
 
   (* one (root, dirnames, filenames) triple of os.walk inside _recursive_simulate *)
   Fixpoint sim_dirs (r : rstate) (k : kst) (t : fs) (root : bytes) (ds : list bytes) (acc : list raw)
@@ -103,7 +107,7 @@ Section Reader.
           let np := replace_first src dst p in
           rekey_loop keys' src dst
                      {| wfp := aset beqb np wd (aremove beqb p (wfp r)); pfw := aset N.eqb wd np (pfw r);
-                        mvf := mvf r; calls := calls r |}
+                        mvf := mvf r; calls := calls r; pend := pend r |}
         | None => rekey_loop keys' src dst r
         end
       else rekey_loop keys' src dst r
@@ -124,11 +128,47 @@ Section Reader.
     flat_map (fun w : bytes * list bytes * list bytes => let '(root, ds, _) := w in map (join root) ds)
              (walk p (content t p)).
 
-  (* one raw event of the batch *)
-  Definition read_one (t : fs) (st : rstate * kst * list raw) (e : kraw) : outcome (rstate * kst * list raw) :=
+  (* _forget_tree(path): over a snapshot of _wd_for_path, every key that is the path or lies below it is popped; when
+     _path_for_wd still records that key for the descriptor, the entry is deleted and the watch removed in the kernel *)
+  Fixpoint forget_tree (keys : list (bytes * N)) (p : bytes) (r : rstate) (k : kst) : rstate * kst :=
+    match keys with
+    | [] => (r, k)
+    | (q, _) :: keys' =>
+      if beqb q p || starts (p ++ [sep]) q then
+        match alookup beqb q (wfp r) with
+        | Some wd =>
+          let r1 := {| wfp := aremove beqb q (wfp r); pfw := pfw r; mvf := mvf r; calls := calls r; pend := pend r |} in
+          match alookup N.eqb wd (pfw r) with
+          | Some q' =>
+            if beqb q' q
+            then forget_tree keys' p {| wfp := wfp r1; pfw := aremove N.eqb wd (pfw r1); mvf := mvf r1; calls := calls r1;
+                                        pend := pend r1 |} (krm_watch k wd)
+            else forget_tree keys' p r1 k
+          | None => forget_tree keys' p r1 k
+          end
+        | None => forget_tree keys' p r k
+        end
+      else forget_tree keys' p r k
+    end.
+
+  (* the head of the loop body (repair F10): a remembered directory IN_MOVED_FROM that is followed by anything but its
+     IN_MOVED_TO on a descriptor the reader knows (i.e. into a directory of the tree) has left the tree *)
+  Definition settle_pending (r : rstate) (k : kst) (e : kraw) : rstate * kst :=
+    if c_fix_moveout C then
+      match pend r with
+      | Some (c, p) =>
+        let r0 := {| wfp := wfp r; pfw := pfw r; mvf := mvf r; calls := calls r; pend := None |} in
+        if is_moved_to (k_mask e) && N.eqb (k_cookie e) c && amem N.eqb (k_wd e) (pfw r)
+        then (r0, k) else forget_tree (wfp r0) p r0 k
+      | None => (r, k)
+      end
+    else (r, k).
+
+  (* the rest of the loop body for one raw event (the whole body of the pinned code) *)
+  Definition read_one_body (t : fs) (st : rstate * kst * list raw) (e : kraw) : outcome (rstate * kst * list raw) :=
     let '(r, k, acc) := st in
     match alookup N.eqb (k_wd e) (pfw r) with
-    | None => Crash SITE_PATH_FOR_WD
+    | None => if c_fix_moveout C then Done (r, k, acc) else Crash SITE_PATH_FOR_WD
     | Some wd_path =>
       let m := k_mask e in
       let src_path := match k_name e with [] => wd_path | _ => join wd_path (k_name e) end in
@@ -136,7 +176,9 @@ Section Reader.
       (* moved_from / moved_to *)
       let '(r1, k1, ev1) :=
         if is_moved_from m then
-          ({| wfp := wfp r; pfw := pfw r; mvf := aset N.eqb (k_cookie e) src_path (mvf r); calls := calls r |}, k, ev)
+          ({| wfp := wfp r; pfw := pfw r; mvf := aset N.eqb (k_cookie e) src_path (mvf r); calls := calls r;
+             pend := if c_fix_moveout C && c_recursive C && is_directory m then Some (k_cookie e, src_path) else pend r |},
+           k, ev)
         else if is_moved_to m then
           let ev' := {| r_wd := k_wd e; r_mask := m; r_cookie := k_cookie e; r_name := k_name e;
                         r_path := join wd_path (k_name e) |} in
@@ -145,7 +187,7 @@ Section Reader.
             match alookup beqb msrc (wfp r) with
             | Some mwd =>
               let r' := {| wfp := aset beqb src_path mwd (aremove beqb msrc (wfp r));
-                           pfw := aset N.eqb mwd src_path (pfw r); mvf := mvf r; calls := calls r |} in
+                           pfw := aset N.eqb mwd src_path (pfw r); mvf := mvf r; calls := calls r; pend := pend r |} in
               ((if c_recursive C then rekey_loop (wfp r') msrc src_path r' else r'), k, ev')
             | None =>
               if c_fix_movein C && c_recursive C && is_directory m && fisdir src_path t
@@ -164,10 +206,12 @@ Section Reader.
           match alookup N.eqb (k_wd e) (pfw r1) with
           | None => Crash SITE_PATH_FOR_WD            (* self._path_for_wd.pop(wd) *)
           | Some path =>
-            let rp := {| wfp := wfp r1; pfw := aremove N.eqb (k_wd e) (pfw r1); mvf := mvf r1; calls := calls r1 |} in
+            let rp := {| wfp := wfp r1; pfw := aremove N.eqb (k_wd e) (pfw r1); mvf := mvf r1; calls := calls r1;
+                         pend := pend r1 |} in
             match alookup beqb path (wfp rp) with
             | Some w => if N.eqb w (k_wd e)
-                        then Done {| wfp := aremove beqb path (wfp rp); pfw := pfw rp; mvf := mvf rp; calls := calls rp |}
+                        then Done {| wfp := aremove beqb path (wfp rp); pfw := pfw rp; mvf := mvf rp; calls := calls rp;
+                                    pend := pend rp |}
                         else Done rp
             | None => if c_fix_ignored C then Done rp else Crash SITE_IGNORED
             end
@@ -185,6 +229,12 @@ Section Reader.
         else Done (r2, k1, acc2)
       end
     end.
+
+  (* one raw event of the batch *)
+  Definition read_one (t : fs) (st : rstate * kst * list raw) (e : kraw) : outcome (rstate * kst * list raw) :=
+    let '(r_in, k_in, acc) := st in
+    let '(r, k) := settle_pending r_in k_in e in
+    read_one_body t (r, k, acc) e.
 
   Fixpoint read_batch (t : fs) (st : rstate * kst * list raw) (b : list kraw) : outcome (rstate * kst * list raw) :=
     match b with
